@@ -6,5 +6,7 @@ CONSTANTS
   Bits = {32, 64, 128}
   MaxSteps = 1000
   Variant = "ok"
+  WithSv = TRUE
+  SvMode = "asWritten"
 POSTCONDITION TraceDone
 CHECK_DEADLOCK FALSE
